@@ -121,6 +121,7 @@ class Interp(object):
 
     def __init__(self, units, heap):
         self.heap = heap
+        self.units = units
         self.funcs = {}
         for u in units.values():
             for fn in u.function_list:
@@ -242,9 +243,41 @@ class Interp(object):
             return ('str', bytes(e['bytes']))
         if k == 'mem':
             b = self.ev(e['b'], frame)
+            if isinstance(b, tuple) and b[0] == 'row':
+                # a row of a constant table: the initialiser at the field's position
+                rec = None
+                for rr in frame['u'].records.values():
+                    if any(f['n'] == e['f'] for f in rr['fields']) and len(rr['fields']) == len(b[1]):
+                        rec = rr
+                if rec is None:
+                    raise AnalysisBroken('SHP: %s: field %s of a table row cannot be located' % (fn.where(e), e['f']))
+                pos = [i for i, f in enumerate(rec['fields']) if f['n'] == e['f']][0]
+                return self.ev(b[1][pos], frame)
             if isinstance(b, tuple) and b[0] == 'glob':
                 return ('glob', b[1] + '.' + e['f'])
             return self.heap.get(b, e['f'], 'at ' + fn.where(e))
+        if k == 'idx':
+            b = self.ev(e['b'], frame)
+            i = self.ev(e['i'], frame)
+            if isinstance(b, tuple) and b[0] == 'glob' and isinstance(i, int):
+                g = None
+                for uu in self.units.values():
+                    for gg in uu.globals:
+                        if gg['n'] == b[1]:
+                            g = (uu, gg)
+                if g is None or 'init' not in g[1] or g[1]['init'].get('k') != 'initlist' or 'const' not in g[0].ty(g[1]['ty'])['s']:
+                    raise AnalysisBroken('SHP: %s: %s is not a constant table' % (fn.where(e), b[1]))
+                rows = g[1]['init']['inits']
+                if not (0 <= i < len(rows)):
+                    raise ShapeViolation('index %d outside the table %s at %s' % (i, b[1], fn.where(e)))
+                r = strip_casts(rows[i])
+                if r.get('k') == 'initlist':
+                    return ('row', r['inits'])
+                return self.ev(rows[i], frame)
+            if isinstance(b, tuple) and b[0] == 'str' and isinstance(i, int):
+                bs = b[1]
+                return bs[i] if 0 <= i < len(bs) else (0 if i == len(bs) else None)
+            raise AnalysisBroken('SHP: %s: indexing is not modelled here' % fn.where(e))
         if k == 'un':
             op = e['op']
             if op == '!':
